@@ -125,6 +125,7 @@ type gen struct {
 	funcs  []*function
 	fmap   map[string]*function
 	types  []*Type
+	arrT   []*Type // small pool of array types shared by arguments, locals, parameters and results
 	nvar   int
 	feat   map[string]bool
 	inLoop int
@@ -601,6 +602,20 @@ func (g *gen) expr(t *Type, depth int) expr {
 	}
 }
 
+// argFor builds an argument of type t: an expression for scalars, a variable
+// of exactly that type for arrays and structs (passed by value).
+func (g *gen) argFor(t *Type, depth int) (expr, bool) {
+	if t.Scalar() {
+		return g.expr(t, depth), true
+	}
+	vs := g.varsOf(func(v variable) bool { return v.t.Equal(t) })
+	if len(vs) == 0 {
+		return expr{}, false
+	}
+	g.feat["compound-argument"] = true
+	return varExpr(vrt.Pick(g.r, vs)), true
+}
+
 // callExpr calls an already generated single-result function returning t.
 func (g *gen) callExpr(t *Type, depth int) (expr, bool) {
 	var cands []*function
@@ -616,7 +631,10 @@ func (g *gen) callExpr(t *Type, depth int) (expr, bool) {
 	var args []expr
 	var srcs []string
 	for _, p := range f.params {
-		a := g.expr(p.t, depth-1)
+		a, ok := g.argFor(p.t, depth-1)
+		if !ok {
+			return expr{}, false
+		}
 		args = append(args, a)
 		srcs = append(srcs, a.src)
 	}
@@ -711,7 +729,47 @@ func (g *gen) stmt(depth int, rets []*Type, allowReturn bool) stmt {
 	arrays := g.varsOf(func(v variable) bool { return !v.ro && v.t.Kind == KArr })
 	structs := g.varsOf(func(v variable) bool { return !v.ro && v.t.Kind == KStruct })
 	for {
-		switch g.r.Intn(17) {
+		switch g.r.Intn(20) {
+		case 17: // for i, v := range a / for _, v := range a / for i := range a
+			if !g.cfg.Loops || depth <= 0 || g.inLoop >= 2 {
+				continue
+			}
+			if s, ok := g.rangeStmt(depth, rets); ok {
+				return s
+			}
+		case 18: // c := a for an array or struct value: an independent copy
+			if g.inLoop > 0 {
+				continue
+			}
+			comp := g.varsOf(func(v variable) bool { return !v.t.Scalar() && v.t.Width() <= 512 })
+			if len(comp) == 0 {
+				continue
+			}
+			srcv := vrt.Pick(g.r, comp)
+			name, sn := g.fresh("c"), srcv.name
+			g.declareAfter(variable{name: name, t: srcv.t})
+			g.feat["compound-copy"] = true
+			return stmt{lines: []string{fmt.Sprintf("%s := %s", name, sn)}, exec: func(en *env) bool { en.def(name, en.get(sn).Clone()); return false }}
+		case 19: // s.f[i] = e for an array field
+			var cands []func() stmt
+			for _, sv := range structs {
+				for fi, f := range sv.t.Fields {
+					if f.T.Kind != KArr || !f.T.Elem.Scalar() {
+						continue
+					}
+					n, idx, ft, fname := sv.name, fi, f.T, f.Name
+					cands = append(cands, func() stmt {
+						i := g.r.Intn(ft.N)
+						e := g.expr(ft.Elem, depth)
+						g.feat["struct-array-field-elem-assign"] = true
+						return stmt{lines: []string{fmt.Sprintf("%s.%s[%d] = %s", n, fname, i, e.src)}, exec: func(en *env) bool { en.get(n).E[idx].E[i] = e.eval(en); return false }}
+					})
+				}
+			}
+			if len(cands) == 0 {
+				continue
+			}
+			return vrt.Pick(g.r, cands)()
 		case 16: // a bare literal stored into a variable, an array element or a struct field
 			type target struct {
 				src string
@@ -777,7 +835,7 @@ func (g *gen) stmt(depth int, rets []*Type, allowReturn bool) stmt {
 			for _, v := range g.scopes[len(g.scopes)-1] {
 				cur[v.name] = true
 			}
-			if vis := g.varsOf(func(v variable) bool { return v.t.Scalar() && !v.loop && !cur[v.name] }); len(vis) > 0 && len(g.scopes) > 2 && g.r.Intn(5) == 0 {
+			if vis := g.varsOf(func(v variable) bool { return v.t.Scalar() && !v.loop && !v.ro && !cur[v.name] }); len(vis) > 0 && len(g.scopes) > 2 && g.r.Intn(5) == 0 {
 				if cv := vrt.Pick(g.r, vis); !strings.Contains(e.src, cv.name) && cv.t.Equal(t) {
 					name = cv.name // shadow an outer variable
 					shadow = " // shadows"
@@ -1153,12 +1211,73 @@ func (g *gen) forStmt(depth int, rets []*Type) stmt {
 	}}
 }
 
+// rangeStmt ranges over an array in scope. The array is read-only inside the
+// body (whether a store into the ranged array is seen by later iterations is
+// anchored by no document); the element variable is a read-only copy.
+func (g *gen) rangeStmt(depth int, rets []*Type) (stmt, bool) {
+	arrs := g.varsOf(func(v variable) bool { return v.t.Kind == KArr && v.t.N <= 8 && v.t.Elem.Scalar() })
+	if len(arrs) == 0 {
+		return stmt{}, false
+	}
+	a := vrt.Pick(g.r, arrs)
+	form := g.r.Intn(3) // 0: i, v   1: _, v   2: i
+	iv, vv := g.fresh("i"), g.fresh("e")
+	g.push()
+	g.declare(variable{name: a.name, t: a.t, ro: true})
+	if form != 1 {
+		g.declare(variable{name: iv, t: Int(32), ro: true, loop: true, bound: a.t.N})
+	}
+	if form != 2 {
+		g.declare(variable{name: vv, t: a.t.Elem, ro: true})
+	}
+	g.inLoop++
+	body := g.block(g.r.Range(1, max(1, g.cfg.MaxStmts/2)), depth-1, rets, false, false)
+	g.inLoop--
+	g.pop()
+	an, n, et := a.name, a.t.N, a.t.Elem
+	head := fmt.Sprintf("for %s, %s := range %s {", iv, vv, an)
+	switch form {
+	case 1:
+		head = fmt.Sprintf("for _, %s := range %s {", vv, an)
+	case 2:
+		head = fmt.Sprintf("for %s := range %s {", iv, an)
+	}
+	kids := func() []string {
+		lines := []string{head}
+		lines = append(lines, renderBlock(body)...)
+		return append(lines, "}")
+	}
+	g.feat["for-range"] = true
+	_ = et
+	return stmt{kids: kids, exec: func(en *env) bool {
+		for i := 0; i < n; i++ {
+			en.push()
+			if form != 1 {
+				en.def(iv, Val{T: Int(32), I: big.NewInt(int64(i))})
+			}
+			if form != 2 {
+				en.def(vv, en.get(an).E[i])
+			}
+			r := execBlock(en, body)
+			en.pop()
+			if r {
+				return true
+			}
+		}
+		return false
+	}}, true
+}
+
 func (g *gen) newArray(depth int) stmt {
 	et := g.intType()
 	if g.r.Intn(3) == 0 {
 		et = Uint(8)
 	}
 	n := g.r.Range(2, 8)
+	if len(g.arrT) > 0 && g.r.Bool() {
+		pt := vrt.Pick(g.r, g.arrT)
+		et, n = pt.Elem, pt.N
+	}
 	name := g.fresh("a")
 	iv := g.fresh("i")
 	g.push()
@@ -1187,7 +1306,7 @@ func (g *gen) newArray(depth int) stmt {
 func (g *gen) multiCall(depth int) (stmt, bool) {
 	var cands []*function
 	for _, f := range g.funcs {
-		if len(f.results) > 1 {
+		if len(f.results) > 1 || !f.results[0].Scalar() {
 			cands = append(cands, f)
 		}
 	}
@@ -1198,7 +1317,10 @@ func (g *gen) multiCall(depth int) (stmt, bool) {
 	var args []expr
 	var srcs []string
 	for _, p := range f.params {
-		a := g.expr(p.t, depth)
+		a, ok := g.argFor(p.t, depth)
+		if !ok {
+			return stmt{}, false
+		}
 		args = append(args, a)
 		srcs = append(srcs, a.src)
 	}
@@ -1207,6 +1329,11 @@ func (g *gen) multiCall(depth int) (stmt, bool) {
 		n := g.fresh("v")
 		names = append(names, n)
 		g.declareAfter(variable{name: n, t: t})
+	}
+	for _, t := range f.results {
+		if !t.Scalar() {
+			g.feat["compound-result"] = true
+		}
 	}
 	g.feat["multi-result-call"] = true
 	return stmt{lines: []string{fmt.Sprintf("%s := %s(%s)", strings.Join(names, ", "), f.name, strings.Join(srcs, ", "))}, exec: func(en *env) bool {
@@ -1254,6 +1381,15 @@ func Generate(r *vrt.Rng, cfg Config) *Program {
 			g.types = append(g.types, st)
 		}
 	}
+	if cfg.Arrays {
+		for i := g.r.Range(1, 2); i > 0; i-- {
+			et := vrt.Pick(g.r, []*Type{Uint(8), Uint(8), g.intType()})
+			if cfg.TextArrays {
+				et = vrt.Pick(g.r, []*Type{Uint(8), Uint(16), Int(16), Uint(32)})
+			}
+			g.arrT = append(g.arrT, Arr(g.r.Range(2, 5), et))
+		}
+	}
 	sig := func(name string, ps, rs []string) string {
 		rsig := rs[0]
 		if len(rs) > 1 {
@@ -1272,6 +1408,10 @@ func Generate(r *vrt.Rng, cfg Config) *Program {
 				v := variable{name: g.fresh("p"), t: g.scalarType()}
 				if len(f.params) == 0 {
 					v.t = g.intType() // at least one integer to build non-constant expressions from
+				} else if k := g.r.Intn(5); k == 0 && len(g.arrT) > 0 {
+					v.t = vrt.Pick(g.r, g.arrT) // arrays and structs are passed by value
+				} else if k == 1 && len(g.types) > 0 {
+					v.t = vrt.Pick(g.r, g.types)
 				}
 				f.params = append(f.params, v)
 				g.declare(v)
@@ -1280,6 +1420,10 @@ func Generate(r *vrt.Rng, cfg Config) *Program {
 			var rs []string
 			for q := g.r.Range(1, 3); q > 0; q-- {
 				t := g.scalarType()
+				// a compound result: the (possibly modified) parameter of that type
+				if comp := g.varsOf(func(v variable) bool { return !v.t.Scalar() }); len(comp) > 0 && g.r.Intn(3) == 0 {
+					t = vrt.Pick(g.r, comp).t
+				}
 				f.results = append(f.results, t)
 				rs = append(rs, t.Src())
 			}
@@ -1304,6 +1448,9 @@ func Generate(r *vrt.Rng, cfg Config) *Program {
 			t = Arr(g.r.Range(2, 6), vrt.Pick(g.r, []*Type{Uint(8), Uint(8), g.intType()}))
 			if cfg.TextArrays {
 				t = Arr(g.r.Range(2, 6), vrt.Pick(g.r, []*Type{Uint(8), Uint(8), Uint(16), Int(16), Uint(32), Int(64)}))
+			}
+			if len(g.arrT) > 0 && g.r.Intn(3) != 0 {
+				t = vrt.Pick(g.r, g.arrT)
 			}
 		case k == 1 && cfg.Structs && len(g.types) > 0:
 			t = vrt.Pick(g.r, g.types)
